@@ -102,19 +102,29 @@ inline ModelDesc randomDesc(Rng& r, const GenOpts& o, long caseIdx) {
     int nT = (int)types.size();
     d.euler = o.forceCycle ? ((caseIdx / (2 * nT)) % 2 == 1) : r.coin(0.4);
     if (r.coin(o.pLoneParticle)) {
-        // the RBNodeLoneParticle specialisation
+        // the RBNodeLoneParticle specialisation: Translation on Ground, forward, identity
+        // frames, no children. The other bodies hang on Ground or on each other, never on the
+        // particle, and the particle is inserted at a random position among them (so that its
+        // q, u and body indices differ: mobilizers with nq != nu may precede it).
         NodeDesc n; n.type = MT_Translation; n.reversed = false; n.fF = n.fM = 0; n.parent = -1; n.sub = r.next();
         n.comAtOrigin = r.coin(0.5);
-        d.nodes.push_back(n);
-        // other bodies may hang on Ground but not on the particle
-        int extra = r.integer(0, std::max(0, o.minBodies - 1 + 2));
+        int extra = r.integer(0, std::max(0, o.minBodies - 1 + 3));
+        std::vector<NodeDesc> others;
         for (int k = 0; k < extra; ++k) {
             NodeDesc m; m.type = types[r.next() % nT]; m.reversed = o.allowReversed && r.coin(0.3);
+            if (k == 0 && o.types.empty() && r.coin(0.5)) { static const int quatTypes[] = {MT_Ball, MT_Free, MT_Ellipsoid, MT_LineOrientation, MT_FreeLine}; m.type = quatTypes[r.next() % 5]; }
             m.fF = r.integer(0, 2); m.fM = r.integer(0, 2); m.sub = r.next();
-            m.parent = (k == 0) ? -1 : r.integer(1, (int)d.nodes.size() - 1);
-            if (m.parent == 0) m.parent = -1;
+            m.parent = (k == 0) ? -1 : r.integer(-1, k - 1);
+            others.push_back(m);
+        }
+        int pos = r.integer(0, extra);   // position of the particle among all nodes
+        for (int k = 0; k < extra; ++k) {
+            if (k == pos) d.nodes.push_back(n);
+            NodeDesc m = others[k];
+            if (m.parent >= pos) m.parent += 1;
             d.nodes.push_back(m);
         }
+        if (pos == extra) d.nodes.push_back(n);
         return d;
     }
     int nb = r.integer(o.minBodies, o.maxBodies);
